@@ -51,6 +51,7 @@ type detokObs struct {
 
 // judgeDisabledDetok decides one detokenize of a DISABLED token: the token itself, no error. Returns true when it held.
 func judgeDisabledDetok(r *ev.Run, o detokObs, via string, detail func(extra map[string]interface{}) map[string]interface{}) bool {
+	violation := func(sig string, d interface{}) { r.Violation(storeSig(o.store, sig), d) } // Redis variants: signatures start with "redis "
 	typ := o.tok.typ
 	// what was observed (non-vacuity is about observations, whatever the verdict)
 	r.Count("disabled_token_detokenize_judged:"+via, 1)
@@ -59,15 +60,15 @@ func judgeDisabledDetok(r *ev.Run, o detokObs, via string, detail func(extra map
 	}
 	switch {
 	case o.pan != nil:
-		r.Violation(fmt.Sprintf("panic in detokenize: layer=%s type=%s len=%s site=%s class=%s", layerNames[o.l], typeName(typ), o.tok.lenClass(), o.pan.site, o.pan.class),
+		violation(fmt.Sprintf("panic in detokenize: layer=%s type=%s len=%s site=%s class=%s", layerNames[o.l], typeName(typ), o.tok.lenClass(), o.pan.site, o.pan.class),
 			detail(map[string]interface{}{"stack": o.pan.stack, "token_state": "disabled"}))
 		return false
 	case o.err != nil:
-		r.Violation(maintSig("disabled-token-detokenize-error", o.cfg, typ, o.l),
+		violation(maintSig("disabled-token-detokenize-error", o.cfg, typ, o.l),
 			detail(map[string]interface{}{"what": "detokenizing a token that maintenance disabled must answer like an unknown token (the token itself, no error); the call failed", "error": o.err.Error(), "error_class": errClass(o.err)}))
 		return false
 	case o.prob != "":
-		r.Violation(fmt.Sprintf("format: detokenize %s: layer=%s type=%s", o.prob, layerNames[o.l], typeName(typ)), detail(map[string]interface{}{"token_state": "disabled"}))
+		violation(fmt.Sprintf("format: detokenize %s: layer=%s type=%s", o.prob, layerNames[o.l], typeName(typ)), detail(map[string]interface{}{"token_state": "disabled"}))
 		return false
 	case o.out.equal(o.tok):
 		r.Count("disabled_token_came_back_itself", 1)
@@ -78,31 +79,32 @@ func judgeDisabledDetok(r *ev.Run, o detokObs, via string, detail func(extra map
 		}
 		return true
 	case o.known && o.out.equal(o.val):
-		r.Violation(maintSig("disabled-token-detokenize-returned-original", o.cfg, typ, o.l),
+		violation(maintSig("disabled-token-detokenize-returned-original", o.cfg, typ, o.l),
 			detail(map[string]interface{}{"what": "a disabled token must be treated as not there: the reader got the original instead of the token itself", "result": o.out.full()}))
 		return false
 	}
-	r.Violation(maintSig("disabled-token-detokenize-returned-other", o.cfg, typ, o.l),
+	violation(maintSig("disabled-token-detokenize-returned-other", o.cfg, typ, o.l),
 		detail(map[string]interface{}{"what": "detokenizing a disabled token returned neither the token itself nor anything the token ever stood for", "result": o.out.full()}))
 	return false
 }
 
 // judgeReenabledDetok decides one owner detokenize of a token that was disabled and then ENABLED back: the original.
 func judgeReenabledDetok(r *ev.Run, o detokObs, via string, detail func(extra map[string]interface{}) map[string]interface{}) bool {
+	violation := func(sig string, d interface{}) { r.Violation(storeSig(o.store, sig), d) } // Redis variants: signatures start with "redis "
 	typ := o.tok.typ
 	r.Count("reenabled_token_detokenize_judged:"+via, 1)
 	r.SetAdd("reenabled_token_judged_store_type_entry", o.store+"/"+typeName(typ)+"/"+detokSig[o.l])
 	switch {
 	case o.pan != nil:
-		r.Violation(fmt.Sprintf("panic in detokenize: layer=%s type=%s len=%s site=%s class=%s", layerNames[o.l], typeName(typ), o.tok.lenClass(), o.pan.site, o.pan.class),
+		violation(fmt.Sprintf("panic in detokenize: layer=%s type=%s len=%s site=%s class=%s", layerNames[o.l], typeName(typ), o.tok.lenClass(), o.pan.site, o.pan.class),
 			detail(map[string]interface{}{"stack": o.pan.stack, "token_state": "enabled back"}))
 		return false
 	case o.err != nil:
-		r.Violation(maintSig("reenabled-token-detokenize-error", o.cfg, typ, o.l),
+		violation(maintSig("reenabled-token-detokenize-error", o.cfg, typ, o.l),
 			detail(map[string]interface{}{"what": "the owner's detokenize of a token that was disabled and enabled back failed", "error": o.err.Error(), "error_class": errClass(o.err)}))
 		return false
 	case o.prob != "":
-		r.Violation(fmt.Sprintf("format: detokenize %s: layer=%s type=%s", o.prob, layerNames[o.l], typeName(typ)), detail(map[string]interface{}{"token_state": "enabled back"}))
+		violation(fmt.Sprintf("format: detokenize %s: layer=%s type=%s", o.prob, layerNames[o.l], typeName(typ)), detail(map[string]interface{}{"token_state": "enabled back"}))
 		return false
 	case o.out.equal(o.val):
 		r.Count("reenabled_token_returned_original", 1)
@@ -110,7 +112,7 @@ func judgeReenabledDetok(r *ev.Run, o detokObs, via string, detail func(extra ma
 		r.SetAdd("reenabled_token_original_store_type_entry", o.store+"/"+typeName(typ)+"/"+detokSig[o.l])
 		return true
 	}
-	r.Violation(maintSig("reenabled-token-not-restored", o.cfg, typ, o.l),
+	violation(maintSig("reenabled-token-not-restored", o.cfg, typ, o.l),
 		detail(map[string]interface{}{"what": "after the token was enabled back its owner must get the original again", "result": o.out.full(), "came_back_as_the_token_itself": o.out.equal(o.tok)}))
 	return false
 }
@@ -131,6 +133,7 @@ type dmTok struct {
 // detokenize entry point as its owner (must be the token itself), enable everything back, detokenize again (must be
 // the original). Sequential; the store is quiescent at every step.
 func disabledMatrix(r *ev.Run, kind storeKind, ks ksrig.FullKeyStore) {
+	violation := func(sig string, d interface{}) { r.Violation(storeSig(kind.name(), sig), d) } // Redis variants: signatures start with "redis "
 	t0 := time.Now()
 	defer func() { r.Count("wall_ms_in_disabled_matrix", time.Since(t0).Milliseconds()) }() // cost accounting only
 	store := kind.name()
@@ -160,14 +163,14 @@ func disabledMatrix(r *ev.Run, kind storeKind, ks ksrig.FullKeyStore) {
 				switch {
 				case pan != nil:
 					det["stack"] = pan.stack
-					r.Violation(fmt.Sprintf("panic in tokenize: layer=%s type=%s len=%s site=%s class=%s", layerNames[l], typeName(typ), v.lenClass(), pan.site, pan.class), det)
+					violation(fmt.Sprintf("panic in tokenize: layer=%s type=%s len=%s site=%s class=%s", layerNames[l], typeName(typ), v.lenClass(), pan.site, pan.class), det)
 				case err != nil && tokenSpaceSmall(v):
 					r.Count("disabled_matrix_small_space_tokenize_refused", 1)
 				case err != nil:
 					det["error"] = err.Error()
-					r.Violation(fmt.Sprintf("unexpected error: op=tokenize layer=%s type=%s len=%s mode=%s encrypting-wrapper=%v class=%s", layerNames[l], typeName(typ), v.errLenClass(), modeName(consistent), kind.enc, errClass(err)), det)
+					violation(fmt.Sprintf("unexpected error: op=tokenize layer=%s type=%s len=%s mode=%s encrypting-wrapper=%v class=%s", layerNames[l], typeName(typ), v.errLenClass(), modeName(consistent), kind.enc, errClass(err)), det)
 				case problem != "":
-					r.Violation(fmt.Sprintf("format: %s: layer=%s type=%s", problem, layerNames[l], typeName(typ)), det)
+					violation(fmt.Sprintf("format: %s: layer=%s type=%s", problem, layerNames[l], typeName(typ)), det)
 				default:
 					det["token"] = out.full()
 					checkTokenFormat(r, l, v, out, det)
@@ -235,7 +238,7 @@ func disabledMatrix(r *ev.Run, kind storeKind, ks ksrig.FullKeyStore) {
 			return false
 		}
 		if disabled != wantDisabled(total) || total < len(toks) {
-			r.Violation(fmt.Sprintf("maintenance effect: %s via=%s must %s", name, via, expect),
+			violation(fmt.Sprintf("maintenance effect: %s via=%s must %s", name, via, expect),
 				map[string]interface{}{"matrix": "disabled tokens", "store": store, "argv": spec.argv, "records_after": total, "disabled_after": disabled, "tokens_issued": len(toks)})
 			return false
 		}
